@@ -158,6 +158,9 @@ func genC09(seed uint64, run int, tier string) *Plan {
 		p.Faults = append(p.Faults, Fault{Kind: "delay", At: r.IntN(100), Task: 1 + r.IntN(nw+nc), N: 5 + r.IntN(60)})
 	case 2:
 		p.Faults = append(p.Faults, Fault{Kind: "store-latency", At: r.IntN(6), Ms: int64(1 + r.IntN(1500))})
+	case 3:
+		// a wall-clock step: event times then run ahead of (or behind) the clock the positioning code may look at
+		p.Faults = append(p.Faults, Fault{Kind: pick(r, "clock-back", "clock-back", "clock-jump"), At: 5 + r.IntN(150), Ms: pick(r, int64(5000), 600000, 3600000)})
 	}
 	return p
 }
